@@ -50,6 +50,14 @@ CLAIMED = {
                      "reservation model accounts for. The real readControlMessage is fuzzed (truncation at every offset, bit flips, tag substitution, length maximisation, count inflation) against the "
                      "model with TotalAlloc measured; scripted hostile senders/receivers drive the real Recv/SendManifestMultiStream (every record at every stage, header fuzz, frame tampering) under a 3 s watchdog.",
                 note=BASE_TB + "Modelled not verified: Go allocator behaviour (bytes.Buffer growth <= 2x), goroutine panics are observed as process death. Known finding: data-frame buffer sized by announced ChunkSize."),
+    "C06": dict(category="proof", design="DESIGN.md §4 C06",
+                technique="Lean 4 theorems on a model of LoadSidecar/Flush/BitmapFromBytes/loadValid; exhaustive bit-flip and truncation differential on real sidecars; resumed end-to-end runs from tampered states",
+                text="Round trip (Flush then LoadSidecar), well-formedness of everything LoadSidecar accepts (bitmap length, no stray bits, hence set bits <= total) and the identity rule "
+                     "(a stored sidecar is used only for the same id/size/chunk size) are theorems over all byte strings. The parser model is compared with the real LoadSidecar on every single-bit flip and "
+                     "every truncation of generated sidecars plus garbage; serialisation and LoadOrCreateSidecarWithFallback likewise. The 'never causes data to be skipped' clause is decided by resumed "
+                     "transfers from 11 kinds of tampered state (missing/short data file, foreign identity fields, damaged metadata, damaged highest chunk incl. all-complete) with tree comparison.",
+                note=BASE_TB + "Modelled not verified: CRC32C detection of the injected damage is executed exhaustively per generated sidecar, not proved; bytes.Reader short-read behaviour is covered by the "
+                     "accept/reject differential; no power-loss model (the code has no fsync). The behavioural clause rests on the end-to-end runs (sampled configurations), the metadata clauses on theorems."),
 }
 PENDING_REASON = "check not built yet in this round (design in DESIGN.md §4); not claimed until its theorem and tie exist"
 NOT_APPLICABLE = {}
